@@ -64,9 +64,13 @@ func splitMain(files map[string]string, parts int) []string {
 		}
 		body := "func " + strings.Join(chunks[lo:hi], "\nfunc ")
 		name := fmt.Sprintf("part_%c.go", 'z'-p) // names sort opposite to creation order
+		// independent package-level initialisers with side effects and the methods of one type
+		// spread over the files: their order in the output must not follow the listing order
+		body += fmt.Sprintf("\n\nvar spreadInit%d = spreadNote(\"part%d\")\n\nvar spreadTable%d = map[string]int{\"k%d\": spreadNote(\"table%d\")}\n\nfunc (s spreadT) Method%d() string { return \"m%d\" }\n\nfunc (s *spreadT) ptrMethod%d() int { return %d }\n", p, p, p, p, p, p, p, p, p)
 		files[name] = pkgLine + "\n" + imports + "\n" + body + "\n"
 		names = append(names, name)
 	}
+	files["main.go"] += "\n\ntype spreadT struct{ n int }\n\nvar spreadLog []string\n\nfunc spreadNote(s string) int {\n\tspreadLog = append(spreadLog, s)\n\treturn len(spreadLog)\n}\n\nvar spreadUse interface{} = &spreadT{}\n"
 	return names
 }
 
